@@ -66,10 +66,11 @@ def trace_features(trace, verdict):
 
 def _run_one(job):
     from . import sched_run  # imported in the worker: finam import per process
-    cfg, link_order = job
+    cfg, link_order = job[0], job[1]
+    limit = job[2] if len(job) > 2 else None
     d = tempfile.mkdtemp(prefix="fv-mem-")
     try:
-        tr = sched_run.run(cfg, d, link_order=link_order)
+        tr = sched_run.run(cfg, d, link_order=link_order, memory_limit=limit)
         if link_order is not None:
             tr["link_order"] = list(link_order)
         return tr
@@ -363,7 +364,8 @@ def replay(pid, path):
     if rp.get("kind") != "sched-trace":
         print(rp.get("output", "")[-3000:])
         return 0
-    t = _run_one((rp["trace"]["cfg"], rp["trace"].get("link_order")))
+    lim = rp.get("limit", -1)
+    t = _run_one((rp["trace"]["cfg"], rp["trace"].get("link_order"), None if lim == -1 else lim))
     acc, tot, bad, _, _ = tlc.validate("Sched_Trace", [t])
     if bad:
         print(f"VIOLATION property={sched_property(bad[0], t['cfg'])} replay={path}  # {bad[0]}")
